@@ -41,6 +41,7 @@ fn gen_script(r: &mut Rng, used_ports: &mut Vec<u16>, max_ticks: u32) -> ScriptS
         write_refuse: (0..r.below(3)).map(|_| r.below(8) as u32).collect(),
         read_base: r.u16(),
         mcr_clear: if r.chance(1, 5) { vec![r.below(max_ticks as u64) as u32] } else { vec![] },
+        wrap: r.below(3) as u8,
     }
 }
 
